@@ -6,7 +6,7 @@ import ast
 from ..cfg import CFG
 from ..engine import AnalysisError, MechanismMissing, PropertySpec, norm
 from ..pyutil import call_name, calls, is_name, walk_local
-from ._simplify import META_PASSES, MODEL, option_blocks, passes, substitutions
+from ._simplify import META_PASSES, MODEL, option_blocks, passes, simplify_fn, substitutions
 
 SPEC = PropertySpec(
     "C15",
@@ -59,7 +59,7 @@ def _is_removal(node) -> bool:
 )
 def r15_1(ctx, rep):
     R = "R15.1"
-    fn = ctx.func(MODEL, "Model._simplify_once", R)
+    fn = simplify_fn(ctx, R)
     blocks = option_blocks(fn)
     site = MODEL + ":Model._simplify_once"
     n = 0
@@ -123,7 +123,9 @@ def r15_1(ctx, rep):
             if isinstance(lp, ast.For) and is_name(lp.iter, "aliases"):
                 c2 = CFG(ast.Module(body=[lp], type_ignores=[]), R)
                 it = [x for x in c2.nodes if x.kind == "iter" and x.ast is lp][0]
-                subs = [x for x in c2.stmts() if norm(x.ast).startswith("variables.append(")]
+                # the list of substituted symbols: first argument pair of the pass's substitution of self.equations
+                symvar = next((s_["symbols"] for s_ in substitutions(da.body) if s_["store"] == "equations"), None)
+                subs = [x for x in c2.stmts() if symvar and norm(x.ast).startswith(symvar + ".append(")]
                 dels = {x.id for x in c2.stmts() if isinstance(x.ast, ast.Delete) and norm(x.ast).startswith("del all_states[")}
                 ok = bool(subs) and bool(dels) and all(c2.must_pass(s.id, it.id, dels) is None for s in subs)
     rep.ob(R, site, "substituted alias removed", ok,
@@ -172,7 +174,7 @@ def _unsigned_table(e) -> bool:
 )
 def r15_3(ctx, rep):
     R = "R15.3"
-    fn = ctx.func(MODEL, "Model._simplify_once", R)
+    fn = simplify_fn(ctx, R)
     blk = option_blocks(fn).get("detect_aliases")
     if blk is None:
         raise MechanismMissing(R, "detect_aliases block not found")
@@ -275,7 +277,7 @@ def _category_tables(blk):
 )
 def r15_4(ctx, rep):
     R = "R15.4"
-    fn = ctx.func(MODEL, "Model._simplify_once", R)
+    fn = simplify_fn(ctx, R)
     blk = option_blocks(fn).get("detect_aliases")
     if blk is None:
         raise MechanismMissing(R, "detect_aliases block not found")
@@ -333,7 +335,7 @@ def _model_list_shrunk(blk):
 )
 def r15_5(ctx, rep):
     R = "R15.5"
-    fn = ctx.func(MODEL, "Model._simplify_once", R)
+    fn = simplify_fn(ctx, R)
     site = MODEL + ":Model._simplify_once"
     n = 0
     for name, blk in option_blocks(fn).items():
@@ -452,7 +454,7 @@ def _member_term(expr, positive, tables):
 def r15_7(ctx, rep):
     from ..cfg import must_facts
     R = "R15.7"
-    fn = ctx.func(MODEL, "Model._simplify_once", R)
+    fn = simplify_fn(ctx, R)
     blk = option_blocks(fn).get("detect_aliases")
     if blk is None:
         raise MechanismMissing(R, "detect_aliases block not found")
@@ -545,7 +547,7 @@ def r15_7(ctx, rep):
 )
 def r15_8(ctx, rep):
     R = "R15.8"
-    fn = ctx.func(MODEL, "Model._simplify_once", R)
+    fn = simplify_fn(ctx, R)
     blk = option_blocks(fn).get("detect_aliases")
     if blk is None:
         raise MechanismMissing(R, "detect_aliases block not found")
